@@ -504,6 +504,16 @@ impl DependencyGraph {
         }
     }
 
+    /// `query` is a transferred query that its (transitive) owner's thread had re-claimed and
+    /// now released again: threads that blocked on it in the meantime have an edge to the
+    /// re-claiming thread. Point them (and the waiters of the queries `query` owns) at the
+    /// thread that owns `query` through its transfer chain.
+    pub(super) fn repoint_transferred_dependents(&mut self, query: DatabaseKeyIndex) {
+        if let Some(owner_thread) = self.thread_id_of_transferred_query(query, None) {
+            self.update_transferred_edges(query, owner_thread);
+        }
+    }
+
     fn update_transferred_edges(&mut self, query: DatabaseKeyIndex, new_owner_thread: ThreadId) {
         fn update_transferred_edges(
             edges: &mut Edges,
